@@ -23,7 +23,7 @@ import (
 
 type vfQtCase struct {
 	K     string          `json:"k"`
-	Same  map[string]bool `json:"same"`
+	Ctx   map[string]string `json:"ctx"` // per component: "same" or the way it differs (QuicTokens.tla)
 	Dmg   string          `json:"dmg"`
 	Dm    int             `json:"dm"`
 	Ds    int             `json:"ds"`
@@ -34,6 +34,13 @@ type vfQtCase struct {
 }
 
 var vfQtComponents = []string{"key", "scid", "dcid", "ip", "port"}
+
+func (c vfQtCase) variant(n string) string {
+	if v := c.Ctx[n]; v != "" {
+		return v
+	}
+	return "same"
+}
 
 func vfQtRandBytes(rnd *rand.Rand, n int) []byte {
 	b := make([]byte, n)
@@ -56,20 +63,93 @@ func vfQtAddr(rnd *rand.Rand, fam string) netip.Addr {
 	return netip.AddrFrom4(a)
 }
 
-// vfQtDiffer returns a byte string different from b: one bit flipped, one byte longer, or one
-// byte shorter (keeping the rest).
-func vfQtDiffer(rnd *rand.Rand, b []byte, maxLen int) []byte {
+// vfQtCidVariant realises a connection-ID variant of the specification: "same", "flip" (one
+// bit), "prefix" (last byte dropped), "prefix2" (2-3 bytes dropped), "ext0" (a zero byte
+// appended), "empty".
+func vfQtCidVariant(rnd *rand.Rand, b []byte, v string) []byte {
 	c := bytes.Clone(b)
-	switch k := rnd.Intn(4); {
-	case k == 0 && len(c) < maxLen:
-		return append(c, byte(rnd.Intn(256)))
-	case k == 1 && len(c) > 0:
-		return c[:len(c)-1]
-	case len(c) > 0:
+	switch v {
+	case "flip":
+		if len(c) == 0 {
+			return []byte{byte(1 + rnd.Intn(255))}
+		}
 		c[rnd.Intn(len(c))] ^= 1 << uint(rnd.Intn(8))
-		return c
+	case "prefix":
+		if len(c) == 0 {
+			return []byte{0}
+		}
+		c = c[:len(c)-1]
+	case "prefix2":
+		n := 2 + rnd.Intn(2)
+		if len(c) < n {
+			return append(c, 0, 0)
+		}
+		c = c[:len(c)-n]
+	case "ext0":
+		c = append(c, 0)
+	case "empty":
+		if len(c) == 0 {
+			return []byte{0}
+		}
+		c = c[:0]
 	}
-	return append(c, byte(rnd.Intn(256)))
+	return c
+}
+
+// vfQtIPVariant: "other" (fresh address of the family), "flip" (one bit), "pad" (an IPv4
+// address presented as the IPv6 address with the same leading bytes and zeros after them),
+// "mapped" (the IPv4-mapped IPv6 form).
+func vfQtIPVariant(rnd *rand.Rand, ip netip.Addr, fam, v string) netip.Addr {
+	switch v {
+	case "other":
+		for {
+			if x := vfQtAddr(rnd, fam); x != ip {
+				return x
+			}
+		}
+	case "flip":
+		b := ip.AsSlice()
+		b[rnd.Intn(len(b))] ^= 1 << uint(rnd.Intn(8))
+		x, _ := netip.AddrFromSlice(b)
+		return x
+	case "pad":
+		var b [16]byte
+		copy(b[:], ip.AsSlice())
+		return netip.AddrFrom16(b)
+	case "mapped":
+		return netip.AddrFrom16(ip.As16())
+	}
+	return ip
+}
+
+func vfQtPortVariant(rnd *rand.Rand, port uint16, v string) uint16 {
+	switch v {
+	case "lowbit":
+		return port ^ 1
+	case "highbyte":
+		return port ^ (1 << uint(8+rnd.Intn(8)))
+	}
+	return port
+}
+
+// vfQtIssueCid draws the client source connection ID of an issue so that the variant asked
+// for is a near miss: for "prefix" it ends in a zero byte (zero padding and truncation coincide).
+func vfQtIssueCid(rnd *rand.Rand, v string, lens []int) []byte {
+	n := lens[rnd.Intn(len(lens))]
+	if n == 0 && (v == "prefix" || v == "empty" || v == "flip") {
+		n = 4
+	}
+	if n < 3 && v == "prefix2" {
+		n = 8
+	}
+	if n >= 20 && v == "ext0" {
+		n = 8
+	}
+	b := vfQtRandBytes(rnd, n)
+	if v == "prefix" {
+		b[n-1] = 0
+	}
+	return b
 }
 
 func vfQtDamage(rnd *rand.Rand, tok []byte, kind string, nonceTail int) []byte {
@@ -119,11 +199,11 @@ func vfQtSplit(d time.Duration) (sec int64, ns int64) {
 
 func vfQtLine(c vfQtCase, lvl string, d time.Duration, ok, odsame bool) map[string]any {
 	sec, ns := vfQtSplit(d)
-	same := map[string]bool{}
+	ctx := map[string]string{}
 	for _, n := range vfQtComponents {
-		same[n] = c.Same[n]
+		ctx[n] = c.variant(n)
 	}
-	return map[string]any{"e": "retry", "lvl": lvl, "same": same, "dmg": c.Dmg, "dsec": sec, "dns": ns,
+	return map[string]any{"e": "retry", "lvl": lvl, "ctx": ctx, "dmg": c.Dmg, "dsec": sec, "dns": ns,
 		"ifrac": c.Ifrac, "olen": c.Olen, "fam": c.Fam, "ok": ok, "odsame": odsame}
 }
 
@@ -133,7 +213,7 @@ func vfQtUnit(env *vfEnv, tn int, rnd *rand.Rand, rs [2]*retryState, c vfQtCase)
 	issue := time.Unix(1_700_000_000+int64(rnd.Intn(1000)), int64(c.Ifrac))
 	d := vfQtDelta(c, v)
 	now := issue.Add(d)
-	scid := vfQtRandBytes(rnd, []int{0, 1, 4, 8, 20}[rnd.Intn(5)])
+	scid := vfQtIssueCid(rnd, c.variant("scid"), []int{0, 1, 4, 8, 20})
 	odcid := vfQtRandBytes(rnd, c.Olen)
 	ip := vfQtAddr(rnd, c.Fam)
 	port := uint16(1 + rnd.Intn(65534))
@@ -144,34 +224,25 @@ func vfQtUnit(env *vfEnv, tn int, rnd *rand.Rand, rs [2]*retryState, c vfQtCase)
 	)
 	p := vfCatchTimeout(10*time.Second, func() {
 		var err error
-		tok, dcid, err = rs[0].makeToken(issue, scid, odcid, netip.AddrPortFrom(ip, port))
-		if err != nil {
-			panic("makeToken: " + err.Error())
+		// for the "prefix" variant issue tokens until the Retry connection ID ends in a zero
+		// byte, so that cutting it short and zero-padding it coincide
+		for try := 0; ; try++ {
+			tok, dcid, err = rs[0].makeToken(issue, scid, odcid, netip.AddrPortFrom(ip, port))
+			if err != nil {
+				panic("makeToken: " + err.Error())
+			}
+			if c.variant("dcid") != "prefix" || dcid[len(dcid)-1] == 0 || try > 5000 {
+				break
+			}
 		}
 		key := rs[0]
-		if !c.Same["key"] {
+		if c.variant("key") != "same" {
 			key = rs[1]
 		}
-		pscid, pdcid, pip, pport := scid, dcid, ip, port
-		if !c.Same["scid"] {
-			pscid = vfQtDiffer(rnd, scid, 20)
-		}
-		if !c.Same["dcid"] {
-			pdcid = vfQtDiffer(rnd, dcid, 20)
-		}
-		if !c.Same["ip"] {
-			for pip = vfQtAddr(rnd, c.Fam); pip == ip; pip = vfQtAddr(rnd, c.Fam) {
-			}
-			if rnd.Intn(3) == 0 {
-				// one bit away
-				b := ip.AsSlice()
-				b[rnd.Intn(len(b))] ^= 1 << uint(rnd.Intn(8))
-				pip, _ = netip.AddrFromSlice(b)
-			}
-		}
-		if !c.Same["port"] {
-			pport = port ^ (1 << uint(rnd.Intn(16)))
-		}
+		pscid := vfQtCidVariant(rnd, scid, c.variant("scid"))
+		pdcid := vfQtCidVariant(rnd, dcid, c.variant("dcid"))
+		pip := vfQtIPVariant(rnd, ip, c.Fam, c.variant("ip"))
+		pport := vfQtPortVariant(rnd, port, c.variant("port"))
 		ptok := vfQtDamage(rnd, tok, c.Dmg, rs[0].aead.NonceSize()-maxConnIDLen)
 		got, ok = key.validateToken(now, ptok, pscid, pdcid, netip.AddrPortFrom(pip, pport))
 	})
@@ -209,11 +280,11 @@ func vfQtEndpoint(t *testing.T, env *vfEnv, tn int, rnd *rand.Rand, c vfQtCase) 
 			}
 			te := mk()
 			te2 := te
-			if !c.Same["key"] {
+			if c.variant("key") != "same" {
 				te2 = mk()
 			}
 			time.Sleep(time.Duration(c.Ifrac))
-			srcID := vfQtRandBytes(rnd, []int{1, 4, 8, 20}[rnd.Intn(4)])
+			srcID := vfQtIssueCid(rnd, c.variant("scid"), []int{1, 4, 8, 19})
 			dstID := vfQtRandBytes(rnd, 8+rnd.Intn(13))
 			ip := vfQtAddr(rnd, c.Fam)
 			port := uint16(1 + rnd.Intn(65534))
@@ -233,33 +304,34 @@ func vfQtEndpoint(t *testing.T, env *vfEnv, tn int, rnd *rand.Rand, c vfQtCase) 
 					addr:       addr,
 				})
 			}
-			initial(te, 0, srcID, dstID, nil, netip.AddrPortFrom(ip, port))
-			buf := te.read()
-			if buf == nil || getPacketType(buf) != packetTypeRetry {
-				panic("no Retry packet in answer to an Initial without token")
-			}
-			retry, ok := parseRetryPacket(buf, dstID)
-			if !ok {
-				panic("Retry packet does not parse")
-			}
-			time.Sleep(d)
-			pscid, pdcid, pip, pport := srcID, retry.srcConnID, ip, port
-			if !c.Same["scid"] {
-				pscid = vfQtDiffer(rnd, srcID, 20)
-			}
-			if !c.Same["dcid"] {
-				pdcid = vfQtDiffer(rnd, retry.srcConnID, 20)
-			}
-			if !c.Same["ip"] {
-				for pip = vfQtAddr(rnd, c.Fam); pip == ip; pip = vfQtAddr(rnd, c.Fam) {
+			// for the "prefix" variant ask for Retry packets until the connection ID of one
+			// ends in a zero byte
+			var retry retryPacket
+			num := packetNumber(0)
+			for try := 0; ; try++ {
+				initial(te, num, srcID, dstID, nil, netip.AddrPortFrom(ip, port))
+				num++
+				buf := te.read()
+				if buf == nil || getPacketType(buf) != packetTypeRetry {
+					panic("no Retry packet in answer to an Initial without token")
+				}
+				var ok bool
+				retry, ok = parseRetryPacket(buf, dstID)
+				if !ok {
+					panic("Retry packet does not parse")
+				}
+				if c.variant("dcid") != "prefix" || retry.srcConnID[len(retry.srcConnID)-1] == 0 || try > 3000 {
+					break
 				}
 			}
-			if !c.Same["port"] {
-				pport = port ^ (1 << uint(rnd.Intn(16)))
-			}
+			time.Sleep(d)
+			pscid := vfQtCidVariant(rnd, srcID, c.variant("scid"))
+			pdcid := vfQtCidVariant(rnd, retry.srcConnID, c.variant("dcid"))
+			pip := vfQtIPVariant(rnd, ip, c.Fam, c.variant("ip"))
+			pport := vfQtPortVariant(rnd, port, c.variant("port"))
 			ptok := vfQtDamage(rnd, retry.token, c.Dmg, 4)
 			te2.peerTLSConn = tlsClient
-			initial(te2, 1, pscid, pdcid, ptok, netip.AddrPortFrom(pip, pport))
+			initial(te2, num, pscid, pdcid, ptok, netip.AddrPortFrom(pip, pport))
 			synctest.Wait()
 			accepted := len(te2.acceptQueue) > 0
 			odsame := false
@@ -286,10 +358,19 @@ func vfQtEndpoint(t *testing.T, env *vfEnv, tn int, rnd *rand.Rand, c vfQtCase) 
 // around the window or next to one of its edges.
 func vfQtSeededCase(rnd *rand.Rand, v time.Duration) (c vfQtCase, d time.Duration) {
 	c.K = "retry"
-	c.Same = map[string]bool{}
+	c.Ctx = map[string]string{}
 	allSame := rnd.Intn(3) > 0
+	c.Fam = []string{"v4", "v6"}[rnd.Intn(2)]
+	variants := map[string][]string{"key": {"other"}, "scid": {"flip", "prefix", "ext0", "empty"},
+		"dcid": {"flip", "prefix", "prefix2", "ext0", "empty"}, "ip": {"other", "flip"}, "port": {"lowbit", "highbyte"}}
+	if c.Fam == "v4" {
+		variants["ip"] = append(variants["ip"], "pad", "mapped")
+	}
 	for _, n := range vfQtComponents {
-		c.Same[n] = allSame || rnd.Intn(4) > 0
+		c.Ctx[n] = "same"
+		if !allSame && rnd.Intn(4) == 0 {
+			c.Ctx[n] = variants[n][rnd.Intn(len(variants[n]))]
+		}
 	}
 	dmgs := []string{"none", "flipnonce", "flipct", "fliptag", "trunc1", "truncshort", "empty", "extend"}
 	c.Dmg = "none"
@@ -297,7 +378,6 @@ func vfQtSeededCase(rnd *rand.Rand, v time.Duration) (c vfQtCase, d time.Duratio
 		c.Dmg = dmgs[rnd.Intn(len(dmgs))]
 	}
 	c.Olen = []int{0, 1, 4, 8, 16, 20}[rnd.Intn(6)]
-	c.Fam = []string{"v4", "v6"}[rnd.Intn(2)]
 	c.Ifrac = []int{0, 1, 999999999, rnd.Intn(1000000000), rnd.Intn(1000000000)}[rnd.Intn(5)]
 	switch rnd.Intn(3) {
 	case 0:
